@@ -257,8 +257,18 @@ def self_synonym_records(draw, tier="quick"):
 def check_self(case, stats: Stats) -> None:
     stats.ev()
     bad = case["prefix"] in case["prefix_synonyms"] or case["uri_prefix"] in case["uri_prefix_synonyms"]
+    import collections
+
+    # the synonym fields accept what pydantic coerces to list[str]; the rule must hold whatever container the caller used
+    containers = {"tuple": tuple, "set": set, "frozenset": frozenset, "deque": collections.deque, "generator": lambda xs: (x for x in xs),
+                  "dict-keys": lambda xs: dict.fromkeys(xs).keys()}
+    extra = []
+    for cname, mk in containers.items():
+        extra.append((f"Record(..., synonyms as {cname})", lambda mk=mk: Record(prefix=case["prefix"], uri_prefix=case["uri_prefix"], prefix_synonyms=mk(case["prefix_synonyms"]), uri_prefix_synonyms=mk(case["uri_prefix_synonyms"]))))
+    extra.append(("from_extended_prefix_map(synonyms as sets)", lambda: Converter.from_extended_prefix_map([{"prefix": case["prefix"], "uri_prefix": case["uri_prefix"], "prefix_synonyms": set(case["prefix_synonyms"]), "uri_prefix_synonyms": frozenset(case["uri_prefix_synonyms"])}])))
     for how, build in (
         ("Record(...)", lambda: Record(prefix=case["prefix"], uri_prefix=case["uri_prefix"], prefix_synonyms=list(case["prefix_synonyms"]), uri_prefix_synonyms=list(case["uri_prefix_synonyms"]))),
+        *extra,
         ("from_extended_prefix_map", lambda: Converter.from_extended_prefix_map([{k: case[k] for k in ("prefix", "uri_prefix", "prefix_synonyms", "uri_prefix_synonyms")}])),
     ):
         try:
